@@ -25,6 +25,7 @@ from .. import common as c
 
 PROP = "X03"
 LP_OUT = 5.0        # bending constant of the exhaustive instance with the initial 1 above the density (InitRank 9999)
+PROBE_CALLS = 40    # straight candidates per probe run
 MAX_EVENTS = 120    # recorded events per walk object (longer walks are recorded up to here)
 MAX_WALKS = 24      # recorded walk objects per run
 RUN_TIMEOUT = 4     # seconds per gen_coords run; a timed-out run contributes the walks recorded so far (no verdict on the rest)
@@ -418,7 +419,8 @@ def _walk_table(rng):
 
 def _record_run(arg):
     """one gen_coords run with a random [ bending ] table; returns the traces (one per RandomWalk object) in rank form"""
-    wd, sd = arg
+    probe = len(arg) > 2 and arg[2] == "probe"
+    wd, sd = arg[0], arg[1]
     import signal
     from polyply.src import random_walk as rwm
     from polyply.src.nonbond_engine import NonBondEngine
@@ -429,8 +431,14 @@ def _record_run(arg):
     wd = Path(wd)
     wd.mkdir(parents=True, exist_ok=True)
     text, names = _walk_top(rng, rng.randint(5, 14), rng.randint(1, 3), rng.random() < 0.4)
-    (wd / "s.top").write_text(text)
     table = _walk_table(random.Random(sd // 100000 * 7 + sd % 4))     # four tables per check seed: one TLC batch per table
+    if probe:
+        # straight-continuation probe: three residues A, one constant, candidates exactly opposite to the previous bond
+        text = "\n".join(["[ defaults ]", "1 2 no 1.0 1.0", "[ atomtypes ]", "P 72.0 0.0 A %.2f 4.0" % D, "[ moleculetype ]", "M 1", "[ atoms ]",
+                          "1 P 1 A B 1 0.0 72", "2 P 2 A B 2 0.0 72", "3 P 3 A B 3 0.0 72", "[ bonds ]", "1 2 1 0.47 1000", "2 3 1 0.47 1000",
+                          "[ system ]", "x", "[ molecules ]", "M 1", ""])
+        table = [(("A", "A", "A"), [2.0, 20.0, 150.0][sd % 3])]
+    (wd / "s.top").write_text(text)
     (wd / "b.bld").write_text("[ bending ]\n" + "".join("%s %s %s %r\n" % (tr + (lp,)) for tr, lp in table))
     walks = []          # list of event lists (floats)
     state = {"cur": None}
@@ -440,7 +448,7 @@ def _record_run(arg):
         if getattr(self, "_x03", None) is None:
             self._x03 = len(walks)
             walks.append({"init": float(self.prev_prob), "events": [], "full": False})
-        if walks[self._x03]["full"] or self._x03 >= MAX_WALKS:
+        if walks[self._x03]["full"] or self._x03 >= (10 ** 9 if probe else MAX_WALKS):
             state["cur"] = None         # recording budget used up: the rest of this walk runs unobserved
             return orig_b(self, point, node)
         evs = walks[self._x03]["events"]
@@ -502,7 +510,10 @@ def _record_run(arg):
     try:
         random.seed(sd)
         np.random.seed(sd % (2 ** 31))
-        gen_coords(toppath=wd / "s.top", outpath=wd / "o.gro", build=[wd / "b.bld"], name="x", box=np.array([9.0, 9.0, 9.0]))
+        if probe:
+            _straight_probe(wd, rng, rwm, NonBondEngine)
+        else:
+            gen_coords(toppath=wd / "s.top", outpath=wd / "o.gro", build=[wd / "b.bld"], name="x", box=np.array([9.0, 9.0, 9.0]))
     except RunTimeout:
         err = "timeout"
     except Exception as exc:
@@ -511,8 +522,29 @@ def _record_run(arg):
         signal.setitimer(signal.ITIMER_REAL, 0)
         signal.signal(signal.SIGALRM, old)
         rwm.RandomWalk.bendiness, NonBondEngine.compute_bending_probability, rwm.random = orig_b, orig_p, orig_r
-    return {"seed": sd, "table": [{"k": list(tr), "nz": bool(lp)} for tr, lp in table], "lps": [[list(tr), lp] for tr, lp in table],
+    return {"seed": sd, "probe": probe, "table": [{"k": list(tr), "nz": bool(lp)} for tr, lp in table], "lps": [[list(tr), lp] for tr, lp in table],
             "walks": [rank_walk(w) for w in walks if w["events"]], "error": err}
+
+
+def _straight_probe(wd, rng, rwm, NonBondEngine):
+    """real objects, exactly straight candidates along random directions (what the walk produces when it draws the same unit vector twice)"""
+    from polyply.src.topology import Topology
+    from polyply.src.build_file_parser import read_build_file
+    t = Topology.from_gmx_topfile(name="x", path=wd / "s.top")
+    t.preprocess()
+    read_build_file((wd / "b.bld").read_text().splitlines(True), t)
+    t.volumes = {"A": D}
+    mol = t.molecules[0]
+    for _ in range(PROBE_CALLS):
+        eng = NonBondEngine.from_topology(t.molecules, t, np.array([20.0, 20.0, 20.0]))
+        u = np.array([rng.gauss(0, 1), rng.gauss(0, 1), rng.gauss(0, 1)])
+        u /= np.linalg.norm(u)
+        b = np.array([10.0, 10.0, 10.0])
+        eng.add_positions(b - D * u, 0, 0, start=True)
+        eng.add_positions(b, 0, 1, start=False)
+        rw = rwm.RandomWalk(0, eng)
+        rw.molecule = mol
+        rw.bendiness(b + D * u, 2)
 
 
 def rank_walk(w):
@@ -547,7 +579,7 @@ def bend_validate(ck, runs, name, expect_reject=False):
     wd = c.workdir(PROP, name)
     for gi, (sig, rs) in enumerate(sorted(groups.items())):
         traces = [{"init": w["init"], "events": w["events"]} for r in rs for w in r["walks"]]
-        src = [(r["seed"], w) for r in rs for w in r["walks"]]
+        src = [((r["seed"], r.get("probe", False)), w) for r in rs for w in r["walks"]]
         if not traces:
             continue
         f = wd / ("t%d.json" % gi)
@@ -574,16 +606,16 @@ def bend_validate(ck, runs, name, expect_reject=False):
                     continue
                 for e in w["raw"]["events"]:
                     if e.get("nan_straight"):
-                        ck.violation({"kind": "bend I->S", "seed": sd, "event": e}, sig=SIG_NAN,
+                        ck.violation({"kind": "bend I->S", "seed": sd[0], "probe": sd[1], "event": e}, sig=SIG_NAN,
                                      what="straight continuation (monitored angle %.9f) got probability NaN and was rejected" % e["ang"])
         for tid, matched in sorted(rj.items()):
             sd, w = src[tid - 1]
             rejected.append((sd, tid, matched))
             if not expect_reject:
                 raw = w["raw"]["events"]
-                ck.violation({"kind": "bend I->S", "seed": sd, "table": r0["lps"], "trace": traces[tid - 1], "raw": raw[:matched + 2], "matched_events": matched},
-                             what="recorded walk (run seed %d) rejected by Bending after %d matched events; next event %s" % (
-                                 sd, matched, json.dumps(raw[matched])[:300] if matched < len(raw) else "-"))
+                ck.violation({"kind": "bend I->S", "seed": sd[0], "probe": sd[1], "table": r0["lps"], "trace": traces[tid - 1], "raw": raw[:matched + 2], "matched_events": matched},
+                             what="recorded walk (run seed %d%s) rejected by Bending after %d matched events; next event %s" % (
+                                 sd[0], ", straight probe" if sd[1] else "", matched, json.dumps(raw[matched])[:300] if matched < len(raw) else "-"))
     return rejected
 
 
@@ -657,6 +689,9 @@ def run(tier):
             "what does hold is PrevIsLastAccepted / AcceptRule / StraightAccepted (proved on the instance, validated on real walks)")
     ck.note("X03(a): the [ bending ] directive is reachable (build_file_parser.BuildDirector._bending -> topology.bending -> "
             "NonBondEngine.bending_matrix); its key is (new residue, predecessor, predecessor's predecessor)")
+    ck.note("X03(a) observations not asserted (no statement to hold them against): prev_prob is also updated by candidates that are afterwards rejected "
+            "for overlap (bendiness runs before _is_overlap), is not reset by _rewind, and is compared across residues with different constants; "
+            "angle() ignores periodic images")
     ck.model_must_hold(cr_small, "CombRule with the GROMACS numbering")
     ck.model_must_hold(cr_asis, "CombRule laws that hold for polyply's table (Symmetric, SelfPair, DeviationExtent, Swapped23)")
     ck.model_must_refute(cr_gmx, "AgreesWithGromacs", "polyply's table 1->LB, 2->geometric, 3->LB")
@@ -719,7 +754,9 @@ def run(tier):
     ck.stage("bending: real walks")
     nruns = 48 if quick else 600
     wdw = c.workdir(PROP, "walks")
-    runs = c.pmap(_record_run, [(str(wdw / str(i)), sd * 100000 + i) for i in range(nruns)])
+    nprobe = 6 if quick else 30
+    runs = c.pmap(_record_run, [(str(wdw / str(i)), sd * 100000 + i) for i in range(nruns)] +
+                  [(str(wdw / ("p%d" % i)), sd * 100000 + 50000 + i, "probe") for i in range(nprobe)])
     nwalk = sum(len(r["walks"]) for r in runs)
     nev = sum(len(w["events"]) for r in runs for w in r["walks"])
     errs = [r for r in runs if r["error"] and r["error"] != "timeout"]
@@ -738,7 +775,7 @@ def run(tier):
                     ck.actions["walk_" + k] = ck.actions.get("walk_" + k, 0) + 1
             ck.nontrivial.add("walk:%d:%d" % (r["seed"], len(evs)))
     ck.evaluations += nev
-    ck.extra["walks"] = {"runs": nruns, "timeouts": sum(1 for r in runs if r["error"] == "timeout"), "walk_objects": nwalk, "events": nev, "calls_by_kind": kinds}
+    ck.extra["walks"] = {"runs": nruns, "straight_probe_runs": nprobe, "straight_probe_calls": nprobe * PROBE_CALLS, "timeouts": sum(1 for r in runs if r["error"] == "timeout"), "walk_objects": nwalk, "events": nev, "calls_by_kind": kinds}
     for k in ("skip", "threshold", "improve"):
         ck.require(kinds.get(k, 0) > 0, "real walks never took the %s path (vacuous I->S)" % k)
     first = next((w for r in runs for w in r["walks"] if len(w["events"]) > 8), None)
@@ -749,6 +786,8 @@ def run(tier):
     # binding demonstration
     demo = None
     for r in runs:
+        if r.get("probe"):
+            continue
         for w in r["walks"]:
             idx = [i for i, e in enumerate(w["events"]) if e["ev"] == "ret" and w["events"][i - 1]["ev"] == "draw"]
             if idx and demo is None:
@@ -776,7 +815,7 @@ def replay(path):
     elif kind == "comb I->S":
         comb_validate(ck, [case["record"]], [case["raw"]], case["devmap"], "replay")
     elif kind == "bend I->S":
-        r = _record_run((str(c.workdir(PROP, "replay")), case["seed"]))
+        r = _record_run((str(c.workdir(PROP, "replay")), case["seed"]) + (("probe",) if case.get("probe") else ()))
         bend_validate(ck, [r], "replay_traces")
     elif kind == "bend run":
         r = _record_run((str(c.workdir(PROP, "replay")), case["seed"]))
